@@ -97,6 +97,20 @@ CLAIMED["C12"] = dict(
     technique="Lean 4 reflective proof over a model regenerated from the disassembly + translator validation under a CPUID hook",
     engine="Dispatch", ref="4.3, 5 C12")
 
+CLAIMED["C09"] = dict(
+    text="Proof (Lean 4) over the hand-written executable model of rolling_hash2.c (init/reset/run glue + base scan): "
+         "state hash = H(last w bytes) after any sequence of runs (1<=w<=48); a run returns HIT at the least position "
+         ">=1 where (H(window)&mask)=trigger, else MAX with offset=max_len, offset<=max_len; boundaries of a stream are "
+         "identical for any two cuttings into run calls (incl. max_len 0 and <w); mask_gen formula. T-route: the "
+         "256-entry table is re-extracted from rolling_hash2_table.h on every run and the kernel checks it equals the "
+         "pinned table. Tie: correspondence of run with each scan forced (base, _00, _04 via --wrap) and the public "
+         "API, every run also executed with the base scan on a copy. Found and fixed F5, F4.",
+    note="Trusted: Lean kernel + standard axioms; tools/gen_rolling_table.py; harness. The assembly scans are specified "
+         "by the base scan and checked differentially only. Model of the base scan is being updated to the unsigned "
+         "loop of fix 4824648 (theorems currently carry max_len < 2^31).",
+    technique="Lean 4 proof over hand-written model + regenerated constant table + differential correspondence",
+    engine="Rolling", ref="5 C09")
+
 REASON_TODO = "check not built yet in this session (work in progress, see DESIGN.md status section)"
 
 props = [json.loads(l) for l in open(os.path.join(V, "properties.jsonl"))]
@@ -137,6 +151,8 @@ m = {
         "add_only": True,
     },
     "engines": [
+        {"name": "Rolling", "path": "lean/IsalVerif/Impl/RollingRun.lean", "serves_properties": ["C09"],
+         "kind_free_text": "model of rolling_hash2.c + Spec/Rolling.lean; gen_rolling_table.py; harness/drv_rolling.c"},
         {"name": "Dispatch", "path": "lean/IsalVerif/Impl/Dispatch.lean", "serves_properties": ["C12"],
          "kind_free_text": "mini-x86 interpreter + exact symbolic execution + verified path checker; tools/gen_dispatch.py translator; harness/drv_dispatch.c under the hook"},
         {"name": "AES", "path": "lean/IsalVerif/Spec/Aes.lean", "serves_properties": ["C02", "C03", "C04", "C07"],
